@@ -21,7 +21,7 @@ _ADDR = re.compile(r"0x[0-9a-fA-F]+")
 def norm(text, root):
     if root:
         text = text.replace(root, "<ROOT>")
-    return _ADDR.sub("0x?", text)
+    return text
 
 
 def run_cmd(op, idx):
@@ -122,7 +122,10 @@ def main():
     for idx, item in enumerate(plan["ops"]):
         res = run_one(item["op"], idx)
         blob = json.dumps(res, sort_keys=False, default=repr)
-        rec = {"id": item["id"], "digest": hashlib.sha256(blob.encode()).hexdigest()[:20], "kind": res["kind"]}
+        # two digests: with memory addresses (0x…) normalised, and raw.  A difference only in the raw digest means the
+        # output embeds an object address (classified separately by the parent)
+        rec = {"id": item["id"], "digest": hashlib.sha256(_ADDR.sub("0x?", blob).encode()).hexdigest()[:20],
+               "raw": hashlib.sha256(blob.encode()).hexdigest()[:20], "kind": res["kind"]}
         if verbose and item["id"] in verbose:
             rec["outcome"] = res
         out.append(rec)
